@@ -282,16 +282,23 @@ static void run_options(Src &s) {
     for (int c = 0; c < 3; c++) {
       std::string dd = pd + "/probe" + std::string(c == 0 ? ".a.d" : c == 1 ? ".b.d" : ".c.d");
       mkdir_p(dd);
-      write_file(dd + "/1" + std::to_string(c) + ".conf", "postfix" + std::to_string(c) + "=p" + std::to_string(i) + "\n");
+      // file names differ between the candidates, so that no candidate's drop-ins can hide behind another's
+      write_file(dd + "/1" + std::to_string(c) + "-p" + std::to_string(i) + ".conf",
+                 "postfix" + std::to_string(c) + "=p" + std::to_string(i) + "\nseen_p" + std::to_string(i) + "=1\n");
     }
+    mkdir_p(pd + "/probe.conf.d");
+    write_file(pd + "/probe.conf.d/50-p" + std::to_string(i) + ".conf", "seen_p" + std::to_string(i) + "=1\ndefault_dir=p" + std::to_string(i) + "\n");
     std::string rd = R + "/r" + std::to_string(i) + "/etc";
     mkdir_p(rd);
     write_file(rd + "/probe.conf", "where=r" + std::to_string(i) + "\nrep=1\nrep=2\nmulti=m1\n  x=y\n");
     for (int c = 0; c < 3; c++) {
       std::string dd = rd + "/probe" + std::string(c == 0 ? ".a.d" : c == 1 ? ".b.d" : ".c.d");
       mkdir_p(dd);
-      write_file(dd + "/1" + std::to_string(c) + ".conf", "postfix" + std::to_string(c) + "=r" + std::to_string(i) + "\n");
+      write_file(dd + "/1" + std::to_string(c) + "-r" + std::to_string(i) + ".conf",
+                 "postfix" + std::to_string(c) + "=r" + std::to_string(i) + "\nseen_r" + std::to_string(i) + "=1\n");
     }
+    mkdir_p(rd + "/probe.conf.d");
+    write_file(rd + "/probe.conf.d/50-r" + std::to_string(i) + ".conf", "seen_r" + std::to_string(i) + "=1\ndefault_dir=r" + std::to_string(i) + "\n");
   }
   static const char *PF[3] = {".a.d", ".b.d", ".c.d"};
   int n = (int)s.below(6);
@@ -390,6 +397,25 @@ static void run_options(Src &s) {
   std::string where = sv ? sv : "<none>";
   free(sv);
   VF_CHECK(where == want_where, "wrong-effect", "the probe file read is '" << where << "' expected '" << want_where << "' (last PARSING_DIRS / ROOT_PREFIX item)");
+  // nothing of a directory named by an earlier (replaced) or unused item may be visible
+  for (int i = 0; i < 3; i++)
+    for (const char *fam : {"p", "r"}) {
+      std::string tagname = fam + std::to_string(i);
+      if (tagname == want_where) continue;
+      sv = nullptr;
+      econf_err ee0 = econf_getStringValue(kf, nullptr, ("seen_" + tagname).c_str(), &sv);
+      free(sv);
+      VF_CHECK(ee0 != ECONF_SUCCESS, "wrong-effect", "a drop-in below directory " << tagname << " was read although the last PARSING_DIRS / ROOT_PREFIX item selects " << want_where);
+    }
+  {
+    // without CONFIG_DIRS the default drop-in directory <name>.<suffix>.d of the selected directory is visited
+    sv = nullptr;
+    econf_err ee0 = econf_getStringValue(kf, nullptr, "default_dir", &sv);
+    std::string dd = ee0 == ECONF_SUCCESS && sv ? sv : "<none>";
+    free(sv);
+    VF_CHECK(dd == (cdirs_set ? std::string("<none>") : want_where), "wrong-effect",
+             "default drop-in directory: default_dir='" << dd << "' with" << (cdirs_set ? "" : "out") << " a CONFIG_DIRS item, selected directory " << want_where);
+  }
   // CONFIG_DIRS: exactly the postfixes of the last item are visited
   for (int c = 0; c < 3; c++) {
     std::string key = "postfix" + std::to_string(c);
